@@ -178,6 +178,10 @@ class RSAPSSAlgModel(JWSAlgModel):
 
     def verify(self, msg: bytes, sig: bytes, key: RSAKey) -> bool:
         op_key = key.get_op_key("verify")
+        # https://www.rfc-editor.org/rfc/rfc8017#section-8.1.2
+        # the signature has exactly the length of the modulus in octets
+        if len(sig) != (op_key.key_size + 7) // 8:
+            return False
         try:
             op_key.verify(sig, msg, self.padding, self.hash_alg())
             return True
